@@ -12,9 +12,9 @@ type headerScanner struct {
 	b []byte
 	r int
 
-	// blockEnd is the end of the header block in b when the caller has
-	// already found it (see readRawHeaders), 0 otherwise. next only trusts
-	// it if the block really ends in CRLFCRLF there.
+	// blockEnd is the end of the header block in b, just after its first
+	// blank line, when the caller has already found it (see readRawHeaders),
+	// 0 otherwise.
 	blockEnd int
 
 	key   []byte
@@ -34,12 +34,19 @@ func (s *headerScanner) next() bool {
 			return false
 		}
 
-		if s.blockEnd >= 4 && s.blockEnd <= len(s.b) &&
-			bytes.Equal(s.b[s.blockEnd-4:s.blockEnd], strCRLFCRLF) {
-			// The caller already found the end of the block, no need to
-			// search for it again. The first CRLFCRLF can only sit at
-			// blockEnd-4 since readRawHeaders stops at the first blank line.
-			s.b = s.b[:s.blockEnd]
+		if s.blockEnd > 0 && s.blockEnd <= len(s.b) {
+			// The caller already found the end of the block: its first blank
+			// line. Header lines may end in a bare LF, but the blank line
+			// itself must be a CRLF. This is decided on the block's own
+			// bytes: searching for a CRLFCRLF further down the buffer would
+			// make the result depend on the bytes that follow the headers,
+			// and on whether they have been received yet.
+			end := s.blockEnd
+			if end < 3 || s.b[end-3] != nChar || s.b[end-2] != rChar {
+				s.err = errors.New("invalid headers, the blank line after the headers must end in CRLF")
+				return false
+			}
+			s.b = s.b[:end]
 		} else {
 			i := bytes.Index(s.b, strCRLFCRLF)
 			if i < 0 {
